@@ -362,8 +362,12 @@ func (cs *ContractSet) parseHeader(c *Contract, rest string, defPkg string) erro
 				c.Results = append(c.Results, r)
 			}
 		}
-		li := strings.LastIndex(name, ".")
-		c.Name = name[li+1:]
+		base := name
+		if h := strings.Index(base, "#"); h >= 0 {
+			base = base[:h]
+		}
+		li := strings.LastIndex(base, ".")
+		c.Name = base[li+1:]
 		return nil
 	}
 	if m := hdrRecvRe.FindStringSubmatch(rest); m != nil {
